@@ -33,6 +33,7 @@ fn span(l: &Location) -> String {
 
 struct Out<'a> {
   heap: &'a Heap,
+  comments: &'a samlang_ast::source::CommentStore,
   items: Vec<String>,
   /// (position, name, is local variable use/binder) of every identifier seen
   idents: Vec<(Position, String, bool)>,
@@ -49,11 +50,34 @@ impl Out<'_> {
   fn id(&mut self, depth: usize, id: &Id, local: bool) {
     let name = id.name.as_str(self.heap).to_string();
     self.named(depth, "name", &id.loc, &name, local);
+    self.cm("lead", id.associated_comments);
+  }
+
+  /// Comments owned by the node emitted last (comments carry no location of their own):
+  /// `c:<lead|inner>:<L|B|D><hextext>`; `lead` = attached in front of (some token of) the owner,
+  /// `inner` = between the owner's delimiters.
+  fn cm(&mut self, role: &str, r: samlang_ast::source::CommentReference) {
+    let texts: Vec<String> = self
+      .comments
+      .get(r)
+      .iter()
+      .map(|c| {
+        let k = match c.kind {
+          samlang_ast::source::CommentKind::LINE => "L",
+          samlang_ast::source::CommentKind::BLOCK => "B",
+          samlang_ast::source::CommentKind::DOC => "D",
+        };
+        format!("c:{role}:{k}{}", hex(c.text.as_str(self.heap).as_bytes()))
+      })
+      .collect();
+    self.items.extend(texts);
   }
 
   fn targs(&mut self, d: usize, ta: Option<&annotation::TypeArguments>) {
     if let Some(ta) = ta {
       self.node(d, "targs", &ta.location);
+      self.cm("lead", ta.start_associated_comments);
+      self.cm("inner", ta.ending_associated_comments);
       for a in &ta.arguments {
         self.annot(d + 1, a);
       }
@@ -68,7 +92,10 @@ impl Out<'_> {
 
   fn annot(&mut self, d: usize, a: &annotation::T) {
     match a {
-      annotation::T::Primitive(l, _, _) => self.node(d, "T.Primitive", l),
+      annotation::T::Primitive(l, c, _) => {
+        self.node(d, "T.Primitive", l);
+        self.cm("lead", *c);
+      }
       annotation::T::Id(a) => self.annot_id(d, "T.Id", a),
       annotation::T::Generic(l, id) => {
         self.node(d, "T.Generic", l);
@@ -76,7 +103,11 @@ impl Out<'_> {
       }
       annotation::T::Fn(f) => {
         self.node(d, "T.Fn", &f.location);
+        self.cm("lead", f.associated_comments);
+        // comments before `)` and before `->`: inside the function type, not necessarily inside `( .. )`
+        self.cm("inner", f.parameters.ending_associated_comments);
         self.node(d + 1, "tlist", &f.parameters.location);
+        self.cm("lead", f.parameters.start_associated_comments);
         for p in &f.parameters.annotations {
           self.annot(d + 2, p);
         }
@@ -88,6 +119,8 @@ impl Out<'_> {
   fn tparams(&mut self, d: usize, tp: Option<&annotation::TypeParameters>) {
     if let Some(tp) = tp {
       self.node(d, "tparams", &tp.location);
+      self.cm("lead", tp.start_associated_comments);
+      self.cm("inner", tp.ending_associated_comments);
       for p in &tp.parameters {
         self.node(d + 1, "tparam", &p.loc);
         self.id(d + 2, &p.name, false);
@@ -100,6 +133,8 @@ impl Out<'_> {
 
   fn tuple_pattern(&mut self, d: usize, t: &pattern::TuplePattern<()>) {
     self.node(d, "P.Tuple", &t.location);
+    self.cm("lead", t.start_associated_comments);
+    self.cm("inner", t.ending_associated_comments);
     for e in &t.elements {
       self.pattern(d + 1, &e.pattern);
     }
@@ -108,8 +143,15 @@ impl Out<'_> {
   fn pattern(&mut self, d: usize, p: &pattern::MatchingPattern<()>) {
     match p {
       pattern::MatchingPattern::Tuple(t) => self.tuple_pattern(d, t),
-      pattern::MatchingPattern::Object { location, elements, .. } => {
+      pattern::MatchingPattern::Object {
+        location,
+        elements,
+        start_associated_comments,
+        ending_associated_comments,
+      } => {
         self.node(d, "P.Object", location);
+        self.cm("lead", *start_associated_comments);
+        self.cm("inner", *ending_associated_comments);
         for e in elements {
           self.node(d + 1, "pfield", &e.loc);
           self.id(d + 2, &e.field_name, e.shorthand);
@@ -129,7 +171,10 @@ impl Out<'_> {
         self.node(d, "P.Id", &id.loc);
         self.id(d + 1, id, true);
       }
-      pattern::MatchingPattern::Wildcard { location, .. } => self.node(d, "P.Wildcard", location),
+      pattern::MatchingPattern::Wildcard { location, associated_comments } => {
+        self.node(d, "P.Wildcard", location);
+        self.cm("lead", *associated_comments);
+      }
       pattern::MatchingPattern::Or { location, patterns } => {
         self.node(d, "P.Or", location);
         for p in patterns {
@@ -141,10 +186,13 @@ impl Out<'_> {
 
   fn block(&mut self, d: usize, b: &expr::Block<()>) {
     self.node(d, "E.Block", &b.common.loc);
+    self.cm("lead", b.common.associated_comments);
+    self.cm("inner", b.ending_associated_comments);
     for s in &b.statements {
       match s {
         expr::Statement::Declaration(s) => {
           self.node(d + 1, "S.Let", &s.loc);
+          self.cm("lead", s.associated_comments);
           self.pattern(d + 2, &s.pattern);
           if let Some(a) = &s.annotation {
             self.annot(d + 2, a);
@@ -161,6 +209,7 @@ impl Out<'_> {
 
   fn if_else(&mut self, d: usize, e: &expr::IfElse<()>) {
     self.node(d, "E.IfElse", &e.common.loc);
+    self.cm("lead", e.common.associated_comments);
     match e.condition.as_ref() {
       expr::IfElseCondition::Expression(c) => self.expr(d + 1, c),
       expr::IfElseCondition::Guard(p, c) => {
@@ -177,63 +226,86 @@ impl Out<'_> {
 
   fn expr(&mut self, d: usize, e: &expr::E<()>) {
     match e {
-      expr::E::Literal(c, _) => self.node(d, "E.Literal", &c.loc),
+      expr::E::Literal(c, _) => {
+        self.node(d, "E.Literal", &c.loc);
+        self.cm("lead", c.associated_comments);
+      }
       expr::E::LocalId(c, id) => {
         let name = id.name.as_str(self.heap).to_string();
         self.named(d, "E.LocalId", &c.loc, &name, true);
+        self.cm("lead", c.associated_comments);
+        self.cm("lead", id.associated_comments);
       }
       expr::E::ClassId(c, _, id) => {
         let name = id.name.as_str(self.heap).to_string();
         self.named(d, "E.ClassId", &c.loc, &name, false);
+        self.cm("lead", c.associated_comments);
+        self.cm("lead", id.associated_comments);
       }
       expr::E::Tuple(c, l) => {
         self.node(d, "E.Tuple", &c.loc);
+        self.cm("lead", c.associated_comments);
         self.node(d + 1, "args", &l.loc);
+        self.cm("lead", l.start_associated_comments);
+        self.cm("inner", l.ending_associated_comments);
         for x in &l.expressions {
           self.expr(d + 2, x);
         }
       }
       expr::E::FieldAccess(f) => {
         self.node(d, "E.FieldAccess", &f.common.loc);
+        self.cm("lead", f.common.associated_comments);
         self.expr(d + 1, &f.object);
         self.id(d + 1, &f.field_name, false);
         self.targs(d + 1, f.explicit_type_arguments.as_ref());
       }
       expr::E::MethodAccess(f) => {
         self.node(d, "E.MethodAccess", &f.common.loc);
+        self.cm("lead", f.common.associated_comments);
         self.expr(d + 1, &f.object);
         self.id(d + 1, &f.method_name, false);
         self.targs(d + 1, f.explicit_type_arguments.as_ref());
       }
       expr::E::Unary(u) => {
         self.node(d, "E.Unary", &u.common.loc);
+        self.cm("lead", u.common.associated_comments);
         self.expr(d + 1, &u.argument);
       }
       expr::E::Call(c) => {
         self.node(d, "E.Call", &c.common.loc);
+        self.cm("lead", c.common.associated_comments);
         self.expr(d + 1, &c.callee);
         self.node(d + 1, "args", &c.arguments.loc);
+        self.cm("lead", c.arguments.start_associated_comments);
+        self.cm("inner", c.arguments.ending_associated_comments);
         for x in &c.arguments.expressions {
           self.expr(d + 2, x);
         }
       }
       expr::E::Binary(b) => {
         self.node(d, "E.Binary", &b.common.loc);
+        self.cm("lead", b.common.associated_comments);
+        self.cm("inner", b.operator_preceding_comments);
         self.expr(d + 1, &b.e1);
         self.expr(d + 1, &b.e2);
       }
       expr::E::IfElse(e) => self.if_else(d, e),
       expr::E::Match(m) => {
         self.node(d, "E.Match", &m.common.loc);
+        self.cm("lead", m.common.associated_comments);
         self.expr(d + 1, &m.matched);
         for c in &m.cases {
           self.node(d + 1, "case", &c.loc);
+          self.cm("inner", c.ending_associated_comments);
           self.pattern(d + 2, &c.pattern);
           self.expr(d + 2, &c.body);
         }
       }
       expr::E::Lambda(l) => {
         self.node(d, "E.Lambda", &l.common.loc);
+        self.cm("lead", l.common.associated_comments);
+        // comments before `)` and before `->`: inside the lambda, not necessarily inside `( .. )`
+        self.cm("inner", l.parameters.ending_associated_comments);
         self.node(d + 1, "lparams", &l.parameters.loc);
         for p in &l.parameters.parameters {
           let loc = match &p.annotation {
@@ -255,6 +327,7 @@ impl Out<'_> {
   fn module(&mut self, module: &Module<()>) {
     for imp in &module.imports {
       self.node(0, "import", &imp.loc);
+      self.cm("lead", imp.associated_comments);
       for m in &imp.imported_members {
         self.id(1, m, false);
       }
@@ -262,10 +335,18 @@ impl Out<'_> {
     }
     for t in &module.toplevels {
       self.node(0, "toplevel", &t.loc());
+      self.cm("lead", t.associated_comments());
       self.id(1, t.name(), false);
       self.tparams(1, t.type_parameters());
       if let Some(td) = t.type_definition() {
         self.node(1, "typedef", td.loc());
+        match td {
+          TypeDefinition::Struct { start_associated_comments, ending_associated_comments, .. }
+          | TypeDefinition::Enum { start_associated_comments, ending_associated_comments, .. } => {
+            self.cm("lead", *start_associated_comments);
+            self.cm("inner", *ending_associated_comments);
+          }
+        }
         match td {
           TypeDefinition::Struct { fields, .. } => {
             for f in fields {
@@ -284,6 +365,8 @@ impl Out<'_> {
               self.id(3, &v.name, false);
               if let Some(l) = &v.associated_data_types {
                 self.node(3, "tlist", &l.location);
+                self.cm("lead", l.start_associated_comments);
+                self.cm("inner", l.ending_associated_comments);
                 for a in &l.annotations {
                   self.annot(4, a);
                 }
@@ -294,10 +377,16 @@ impl Out<'_> {
       }
       if let Some(e) = t.extends_or_implements_nodes() {
         self.node(1, "extends", &e.location);
+        self.cm("lead", e.associated_comments);
         for n in &e.nodes {
           self.annot_id(2, "super", n);
         }
       }
+      // comments before the closing brace of the class/interface body belong to the toplevel
+      let (members_loc, members_end) = match t {
+        Toplevel::Class(c) => (c.members.loc, c.members.ending_associated_comments),
+        Toplevel::Interface(i) => (i.members.loc, i.members.ending_associated_comments),
+      };
       let bodies: Vec<Option<&expr::E<()>>> = match t {
         Toplevel::Class(c) => c.members.members.iter().map(|m| Some(&m.body)).collect(),
         Toplevel::Interface(i) => i.members.members.iter().map(|_| None).collect(),
@@ -305,9 +394,12 @@ impl Out<'_> {
       for (m, body) in t.members_iter().zip(bodies) {
         // `decl.loc` of a class member spans the whole definition including the body
         self.node(1, "member", &m.loc);
+        self.cm("lead", m.associated_comments);
         self.tparams(2, m.type_parameters.as_ref());
         self.id(2, &m.name, false);
         self.node(2, "params", &m.parameters.location);
+        self.cm("lead", m.parameters.start_associated_comments);
+        self.cm("inner", m.parameters.ending_associated_comments);
         for p in m.parameters.parameters.iter() {
           self.node(3, "param", &p.name.loc.union(&p.annotation.location()));
           self.id(4, &p.name, true);
@@ -318,6 +410,14 @@ impl Out<'_> {
           self.expr(2, b);
         }
       }
+      self.node(1, "members_end", &Location { start: members_loc.end, ..members_loc });
+      self.items.pop(); // only needed as the owner of the next comments: re-emit as a zero-width marker
+      self.items.push(format!("1:members_end:{}", span(&members_loc)));
+      self.cm("inner", members_end);
+    }
+    if !matches!(self.comments.get(module.trailing_comments), samlang_ast::source::CommentsNode::NoComment) {
+      self.items.push("0:trailing:0.0-0.0".to_string());
+      self.cm("trailing", module.trailing_comments);
     }
   }
 }
@@ -327,7 +427,7 @@ fn parse_and_walk(text: &str, heap: &mut Heap) -> (usize, Vec<String>, Vec<(Posi
   let module =
     samlang_parser::parse_source_module_from_text(text, ModuleReference::DUMMY, heap, &mut error_set);
   let syn = error_set.errors().iter().filter(|e| e.is_syntax_error()).count();
-  let mut o = Out { heap, items: Vec::new(), idents: Vec::new() };
+  let mut o = Out { heap, comments: &module.comment_store, items: Vec::new(), idents: Vec::new() };
   o.module(&module);
   let errs: Vec<Location> = error_set.errors().iter().map(|e| e.location).collect();
   for l in &errs {
@@ -338,7 +438,22 @@ fn parse_and_walk(text: &str, heap: &mut Heap) -> (usize, Vec<String>, Vec<(Posi
 
 fn walk(text: &str) -> String {
   let mut heap = Heap::new();
-  let (syn, items, _, _) = parse_and_walk(text, &mut heap);
+  let (syn, mut items, _, _) = parse_and_walk(text, &mut heap);
+  // the comment tokens of the text with their spans (`k:<L|B|D><hextext>:<span>`): the ground truth
+  // the comments attached to AST nodes are matched against
+  let mut h2 = Heap::new();
+  let mut es = ErrorSet::new();
+  for (kind, text, (l0, c0, l1, c1)) in
+    samlang_parser::verif_hooks::produce_tokens(text, ModuleReference::DUMMY, &mut h2, &mut es)
+  {
+    let k = match kind {
+      "line" => "L",
+      "block" => "B",
+      "doc" => "D",
+      _ => continue,
+    };
+    items.push(format!("k:{k}{}:{l0}.{c0}-{l1}.{c1}", hex(text.as_bytes())));
+  }
   format!("syn={syn} {}", if items.is_empty() { "-".to_string() } else { items.join(";") })
 }
 
